@@ -1,4 +1,4 @@
-import RlModel.Gen.RowsArms
+import RlModel.Gen.RowsTree
 import Mathlib.Tactic.Linarith
 import Mathlib.Tactic.Positivity
 import Mathlib.Algebra.Order.Field.Rat
@@ -100,5 +100,49 @@ theorem not_of_unclamped_in_negative : ∃ b : Rat, 0 ≤ b ∧ (1 : Rat) - 1 / 
 c17e): the estimate goes negative for an offset beyond the input. -/
 theorem limit_minus_offset_negative : ∃ c off lim : Rat, 0 ≤ c ∧ 0 ≤ off ∧ 0 ≤ lim ∧ min (c - off) lim < 0 :=
   ⟨3, 5, 10, by norm_num, by norm_num, by norm_num, by norm_num⟩
+
+/-- **No row estimate is negative, every selectivity is within [0, 1]** — for every term `analyze_rows` can
+compute (`Gen/RowsTree.lean`: `PNode` plans, `SNode` everything else; the roles of the operands are their
+types), by induction over the term with the arm statements above as the steps. The e-class merge keeps the
+smaller of two estimates (`Analysis::merge`), and the clamp (`rows_clamp_inv`) only lowers a value towards a
+bound `≥ 1`: both keep the two bounds. -/
+theorem est_inv : (∀ p : PNode, 0 ≤ p.est) ∧ (∀ s : SNode, 0 ≤ s.est ∧ s.est ≤ 1) :=
+  est_inv_of_arms
+    rows_Values_inv
+    rows_Scan_stat_inv
+    rows_Proj_Order_Window_inv
+    rows_Agg_inv
+    rows_HashAgg_SortAgg_inv
+    rows_Filter_inv
+    rows_Limit_TopN_inv
+    rows_Join_SemiAnti_inv
+    rows_Join_other_inv
+    rows_HashJoin_MergeJoin_SemiAnti_inv
+    rows_HashJoin_MergeJoin_if0_inv
+    rows_HashJoin_MergeJoin_if1_inv
+    rows_HashJoin_MergeJoin_if2_inv
+    rows_Apply_SemiAnti_inv
+    rows_Apply_other_inv
+    rows_Empty_inv
+    rows_Max1Row_inv
+    rows_Ref_inv
+    rows_Constant_false_inv
+    rows_Constant_true_inv
+    rows_And_inv
+    rows_Or_inv
+    rows_Xor_inv
+    rows_Not_inv
+    rows_Gt_Lt_GtEq_LtEq_Eq_NotEq_Like_inv
+    rows_In_inv
+    rows_Exists_inv
+    rows_default_inv
+
+/-- The merge of two estimates of one e-class (the smaller one) keeps the bounds. -/
+theorem merge_min_inv (a b : Rat) (ha : 0 ≤ a) (hb : 0 ≤ b) : 0 ≤ min a b := le_min ha hb
+
+/-- Non-vacuity: the estimate of `filter (a > 1 and b in (subquery of 2 rows)) (scan of 7 rows)` is `7 * (1/2 * 1/2)`. -/
+example : (PNode.Filter (.Scan_stat 7) (.And .Gt_Lt_GtEq_LtEq_Eq_NotEq_Like (.In (.Values 2)))).est = 7 / 4 := by
+  simp only [PNode.est, SNode.est, rows_Filter, rows_Scan_stat, rows_And, rows_Gt_Lt_GtEq_LtEq_Eq_NotEq_Like, rows_In, rows_Values]
+  norm_num
 
 end RlModel.Rows
